@@ -9,11 +9,12 @@ permutation tables.
 from __future__ import annotations
 
 import ast
+import re
 from itertools import permutations
 
 from ..convtables import (UNK, Fold, Groups, candidate_atoms, exporter_model,
                           importer_tables, label_of_row)
-from ..core import AnalysisError, Program, call_name, norm
+from ..core import AnalysisError, Program, call_name, norm, utext
 from ..report import Result
 
 DESCRIPTOR_NAMES = ("Tetrahedral", "SquarePlanar", "TrigonalBipyramidal",
@@ -32,6 +33,140 @@ LEVEL_TEXT = (
     "regeneration and RDKit's own semantics are not decided.")
 
 
+def check_ez_roundtrip(prog: Program, res: Result, G) -> None:
+    res.rule("T-EZ-ROUNDTRIP", "for both orientations of the RDKit bond "
+             "(begin/end = the descriptor's bond atoms in either order) the "
+             "PlanarBond branch of the exporter names one substituent of the "
+             "begin atom and one of the end atom as stereo atoms and a Z / E "
+             "tag such that the importer's reconstruction (stereo atom, other "
+             "substituent, begin, end, stereo atom, other substituent; E "
+             "swaps the first two) is in the PlanarBond orbit of the stored "
+             "ordering")
+    from ..convtables import Fold, UNK
+    efi = prog.fn("graph2rdmol:stereo_mol_graph_to_rdmol")
+    branch = None
+    for n in ast.walk(efi.node):
+        if isinstance(n, ast.If) and re.fullmatch(
+                r"isinstance\((\w+), PlanarBond\)", norm(n.test)):
+            branch = n
+    inst0 = "PlanarBond export: Z/E stereo atoms round-trip"
+    if branch is None:
+        res.unrecognised("T-EZ-ROUNDTRIP", inst0, efi.loc(),
+                         "`if isinstance(b_stereo, PlanarBond):` branch")
+        return
+    bs = re.fullmatch(r"isinstance\((\w+), PlanarBond\)",
+                      norm(branch.test)).group(1)
+    D = tuple(f"d{i}" for i in range(6))
+    ident = {d: d for d in D}
+
+    def execute(stmts, f, out, strict=True):
+        for st in stmts:
+            if isinstance(st, ast.If):
+                t = f.ev(st.test)
+                if t is UNK:
+                    if norm(st.test) in ("False",) or not strict:
+                        continue
+                    raise AnalysisError(
+                        f"guard `{norm(st.test, 60)}` not evaluable")
+                execute(st.body if t else st.orelse, f, out, strict)
+            elif isinstance(st, (ast.Assign, ast.AnnAssign)):
+                if strict:
+                    f.run([st])
+                    continue
+                # prelude: only values that fold, never over a seeded name
+                tgt = st.targets[0] if isinstance(st, ast.Assign) else st.target
+                if st.value is None:
+                    continue
+                v = f.ev(st.value)
+                if v is UNK:
+                    continue
+                if isinstance(tgt, ast.Name) and tgt.id not in seeded:
+                    f.env[tgt.id] = v
+                elif isinstance(tgt, ast.Tuple) and isinstance(
+                        v, tuple) and len(v) == len(tgt.elts):
+                    for t_, x_ in zip(tgt.elts, v):
+                        if isinstance(t_, ast.Name) and t_.id not in seeded:
+                            f.env[t_.id] = x_
+            elif isinstance(st, ast.Expr) and isinstance(st.value, ast.Call) \
+                    and isinstance(st.value.func, ast.Attribute):
+                c = st.value
+                if c.func.attr == "SetStereoAtoms":
+                    vals = f.ev(ast.Tuple(list(c.args), ast.Load()))
+                    out["atoms"] = tuple(vals) if isinstance(
+                        vals, tuple) and len(vals) == 2 else (UNK, UNK)
+                elif c.func.attr == "SetStereo" and c.args:
+                    out["tag"] = norm(c.args[0]).split(".")[-1]
+            elif isinstance(st, ast.Raise):
+                out["raise"] = norm(st, 60)
+
+    for world, (b, e_) in (("same", ("d2", "d3")), ("swapped", ("d3", "d2"))):
+        inst = f"{inst0} [RDKit bond {world}]"
+        f = Fold({f"{bs}.atoms": D, f"{bs}.parity": 0, "a1": "d2",
+                  "a2": "d3", "new_a1": b, "new_a2": e_,
+                  "map_num_idx_dict": ident, "rd_a1": "d2", "rd_a2": "d3"})
+        out: dict = {}
+        seeded = set(f.env)
+        # statements of the enclosing loop body that come before the branch
+        # (aliases, the orientation table of a refactored exporter)
+        from ..core import ancestors as _anc
+        prelude = []
+        for a_ in _anc(branch):
+            if isinstance(a_, ast.For):
+                for st in a_.body:
+                    if st is branch or any(x is branch for x in ast.walk(st)):
+                        break
+                    prelude.append(st)
+                break
+        try:
+            execute(prelude, f, {}, strict=False)
+            execute(branch.body, f, out)
+        except AnalysisError as ex:
+            res.unrecognised("T-EZ-ROUNDTRIP", inst, efi.loc(branch), str(ex))
+            continue
+        if "raise" in out:
+            res.bad("T-EZ-ROUNDTRIP", f"{inst0} {world}: raises",
+                    efi.loc(branch), f"{inst}: the branch ends in "
+                    f"`{out['raise']}`", instance=inst)
+            continue
+        if "atoms" not in out or UNK in out["atoms"] or out.get("tag") not in (
+                "STEREOZ", "STEREOE", "STEREOCIS", "STEREOTRANS"):
+            res.unrecognised("T-EZ-ROUNDTRIP", inst, efi.loc(branch),
+                             f"stereo atoms / tag not folded: {out}")
+            continue
+        x, y = out["atoms"]
+        subs = {"d2": ("d0", "d1"), "d3": ("d4", "d5")}
+        if x not in subs[b] or y not in subs[e_]:
+            res.bad("T-EZ-ROUNDTRIP", f"{inst0} {world}: {x},{y}",
+                    efi.loc(branch), f"{inst}: stereo atoms ({x}, {y}) are "
+                    f"not a substituent of the begin atom {b} and one of the "
+                    f"end atom {e_}", instance=inst)
+            continue
+        ox = [s_ for s_ in subs[b] if s_ != x][0]
+        oy = [s_ for s_ in subs[e_] if s_ != y][0]
+        rebuilt = (x, ox, b, e_, y, oy)
+        if out["tag"] in ("STEREOE", "STEREOTRANS"):
+            rebuilt = (ox, x, b, e_, y, oy)
+        if G.equiv("PlanarBond", D, 0, rebuilt, 0):
+            res.ok("T-EZ-ROUNDTRIP", inst, efi.loc(branch),
+                   f"{out['tag']} ({x}, {y}) -> {rebuilt}")
+        else:
+            res.bad("T-EZ-ROUNDTRIP", f"{inst0} {world}: {out['tag']} {x},{y}",
+                    efi.loc(branch), f"{inst}: {out['tag']} with stereo atoms "
+                    f"({x}, {y}) is read back as PlanarBond{rebuilt}, which "
+                    f"is the other diastereomer of the stored PlanarBond{D}",
+                    instance=inst)
+    # the importer facts the reconstruction above relies on
+    ifi = prog.fn("rdmol2graph:RDMol2StereoMolGraph.smg_from_rdmol")
+    inst = "importer: E/Z tuple = (stereo, other, begin, end, stereo, other)"
+    it = utext(ifi.node)
+    if re.search(r"\(begin_stereo_atom, begin_non_stereo_nbr, begin_idx, "
+                 r"end_idx, end_stereo_atom, end_non_stereo_nbr\)", it):
+        res.ok("T-EZ-ROUNDTRIP", inst, ifi.loc())
+    else:
+        res.unrecognised("T-EZ-ROUNDTRIP", inst, ifi.loc(),
+                         "construction of the six-atom tuple in the importer")
+
+
 def run(prog: Program, res: Result, tier: str) -> None:
     res.rule("T-ROUNDTRIP", "for every stored descriptor (all orderings of "
              "the ligands relative to RDKit's neighbour order, every parity) "
@@ -47,6 +182,7 @@ def run(prog: Program, res: Result, tier: str) -> None:
     imp = importer_tables(prog)
     exp = exporter_model(prog)
     efi = exp["_fi"]
+    check_ez_roundtrip(prog, res, G)
     # ---------------------------------------------------------------- SP, TB
     # bond rewriting inside the export invalidates the neighbour order that
     # tags of OTHER atoms were (or will be) computed against
